@@ -137,6 +137,21 @@ def handle : Handler := fun fn args =>
       match srun st ops with
       | .ok ks => .ok (Json.mkObj [("keys", .arr (ks.map keyToJson).toArray)])
       | .error e => .ok (Json.mkObj [("err", .str (errName e))])
+  | "cheap_hit" => do
+      -- a scope whose child `probe path` is already bound; a jit-ted body (draws (child path, stream)); what the bound child
+      -- reads after the traced call, after a cache hit replayed in place, and after a hit replayed by dict.update
+      let body ← asList (fun d => do .ok (← asList asStr (← argAt d 0), ← asStr (← argAt d 1))) (← argAt args 0)
+      let pp ← asList asStr (← argAt args 1)
+      let ps ← asStr (← argAt args 2)
+      let a : CRef := (0, [])
+      let r := CHeap.init.ensure a pp
+      let h0 := r.1
+      let b := r.2
+      let hT := h0.runBody a body
+      let hH := h0.hitCall a (deltaOf body)
+      let hU := h0.hitCallUpdate a (deltaOf body)
+      .ok (Json.mkObj [("trace", Json.num (hT.read b ps)), ("hit", Json.num (hH.read b ps)), ("hit_update", Json.num (hU.read b ps)),
+        ("alias_kept", .bool (decide (hH.walk a pp = some b))), ("alias_kept_update", .bool (decide (hU.walk a pp = some b)))])
   | "jit_run" => do
       let shared ← asBool (← argAt args 0)
       let ds ← asList asNat (← argAt args 1)
